@@ -177,7 +177,7 @@ def run_bernoulli(ctx):
         g = ctx.guards(f)
         b = f.body
         K = "%s:%s:" % (rule, f.id)
-        te = truth_edges(g, Call("sample_bernoulli", Bin("Div", Local(1), Var("k")), RNG))
+        te = truth_edges(g, Call("sample_bernoulli", Bin("Div", Local(1), AnyLocal()), RNG))
         tt = [e for e in te if e.cond[2] is True]
         ff = [e for e in te if e.cond[2] is False]
         inc = calls_named(ctx, f, "add_assign")
@@ -246,7 +246,7 @@ def run_geometric(ctx):
     good = len(z) == 1 and z[0].leads and all(rd.expr is not None and zero(rd.expr) for rd in z[0].leads)
     req(ctx, rule, K + "zero", good, "gamma == 0 -> 0", "the gamma == 0 shortcut does not return 0", loc=f.loc)
     usample = Call("sample", S(Call("new", zero, t)), RNG)
-    te = truth_edges(g, Call("sample_bernoulli_exp1", Call("new", Var("u"), t), RNG))
+    te = truth_edges(g, Call("sample_bernoulli_exp1", Call("new", AnyLocal(), t), RNG))
     tt = [e for e in te if e.cond[2] is True]
     ff = [e for e in te if e.cond[2] is False]
     good = len(tt) == 1 and len(ff) == 1
@@ -352,7 +352,7 @@ def run_gaussian(ctx):
     z = [e for e in truth_edges(g, Call("is_zero", sigma)) if e.cond[2] is True]
     good = len(z) == 1 and z[0].leads and all(rd.expr is not None and S(Lit(0))(rd.expr) for rd in z[0].leads)
     req(ctx, rule, K + "zero-sigma", good, "sigma == 0 -> 0", "the sigma == 0 shortcut does not return 0", loc=f.loc)
-    acc = truth_edges(g, Call("sample_bernoulli_exp", Var("prob"), RNG))
+    acc = truth_edges(g, Call("sample_bernoulli_exp", AnyLocal(), RNG))
     tt = [e for e in acc if e.cond[2] is True]
     ff = [e for e in acc if e.cond[2] is False]
     rds = [rd for rd in g.retdefs if rd.expr is not None and not S(Lit(0))(rd.expr)]
